@@ -338,8 +338,31 @@ func fleetRun(R *Result, native bool, run int) (fleetOutput, error) {
 		}(i)
 	}
 	awg.Wait()
-	// quiet period: let the fleet converge
-	time.Sleep(400 * time.Millisecond)
+	// quiet period: let the fleet converge (until all instances hold the same content, at most 8 s)
+	for i := 0; i < 160; i++ {
+		time.Sleep(50 * time.Millisecond)
+		same := true
+		var first string
+		for n, id := range insts {
+			raw, _, _ := w.readRaw(id, w.headeredDBI())
+			var sb []byte
+			for _, e := range raw {
+				h, err := ParseRaw(e.Val)
+				if err != nil {
+					continue
+				}
+				sb = append(sb, []byte(fmt.Sprintf("%x=%d/%v/%x;", e.Key, h.TS, h.Flags&1, h.Value))...)
+			}
+			if n == 0 {
+				first = string(sb)
+			} else if string(sb) != first {
+				same = false
+			}
+		}
+		if same && i >= 3 {
+			break
+		}
+	}
 	cancel()
 	done := make(chan struct{})
 	go func() { wg.Wait(); close(done) }()
